@@ -44,7 +44,14 @@ def generate(rng, tier):
             g = rng.randint(2, max(2, nr - 1))
             groups = [i % g for i in range(nr)]
             rng.shuffle(groups)
+        # individual data RDMs in very different physical units (exact powers of two): both bounds are invariant to rescaling
+        # a data RDM (seeded change C07-m5: RDMs of tiny norm)
+        scale_exp = [0] * nr
+        if rng.random() < 0.35:
+            for i in rng.sample(range(nr), rng.randint(1, max(1, nr - 1))):
+                scale_exp[i] = rng.choice([-32, -32, -10, 12])
         out.append(dict(kind=kind + ':' + method, call=kind, method=method, n_cond=nc, v8=vs, nan=nanmask, groups=groups,
+                        scale_exp=scale_exp,
                         k_rdm=rng.randint(1, 2) if nr >= 2 else 1, k_pattern=rng.randint(1, 2), seed=rng.randrange(10 ** 6)))
     return out
 
@@ -55,6 +62,8 @@ def nontrivial(c):
 
 def stack(c):
     a = np.array(c['v8'], dtype=float) / 8
+    for i, e in enumerate(c.get('scale_exp') or []):
+        a[i] = a[i] * (2.0 ** e)
     a[:, np.array(c['nan'])] = np.nan
     return a
 
@@ -105,7 +114,8 @@ def fov(v):
 
 
 def fstack(c):
-    return flist([[None if c['nan'][k] else Fr(x, 8) for k, x in enumerate(v)] for v in c['v8']], fov)
+    se = c.get('scale_exp') or [0] * len(c['v8'])
+    return flist([[None if c['nan'][k] else Fr(x, 8) * Fr(2) ** se[i] for k, x in enumerate(v)] for i, v in enumerate(c['v8'])], fov)
 
 
 def to_coq(c, o):
